@@ -51,7 +51,7 @@ def plans(quick):
         return [("pos", ALL, 2, STY, [0, 6, 10], ["pos"], ["none"], 0),
                 ("union", ALL, 2, STY, [0], ["pos"], ["union"], 0),
                 ("textual", PLAIN, 2, STY, [0, 10], ["text", "tpos", "tname"], ["none"], 0),
-                ("wrapped", PLAIN, 2, ["tpc", "dis"], [0, 10], ["pos", "tpos"], ["subq", "cte"], 0),
+                ("wrapped", PLAIN, 2, ["tpc", "dis"], [10], ["pos", "tpos"], ["subq", "cte"], 0),
                 ("pos3", ALL, 3, STY, [0, 10], ["pos"], ["none"], 120),
                 ("textual3", PLAIN, 3, STY, [0], ["text", "tpos", "tname"], ["none", "union"], 50)]
     return [("pos", ALL, 2, STY, [0, 6, 10], ["pos"], ["none", "union"], 0),
@@ -100,7 +100,10 @@ def main(chk):
     import multiprocessing as mp
     rng = random.Random(chk.seed)
     jobs = []
+    only = [x for x in os.environ.get("VERIF_C11_PLANS", "").split(",") if x]      # development aid: restrict to some plans
     for label, alpha, maxlen, styles, lls, modes, wraps, sample in plans(chk.quick):
+        if only and label not in only:
+            continue
         for sty in styles:
             cfgt = tlc.cfg(constants=dict(Alphabet=_set(alpha), MaxLen=maxlen, Styles=_set([sty]), LLs=_set(lls), Modes=_set(modes),
                                           Wraps=_set(wraps), Sample=sample), invariants=INVS)
@@ -130,7 +133,7 @@ def main(chk):
     # vacuity: every strategy, wrapper, outcome class and finding class must occur
     strategies = {c.get("strategy") for c in uniq if not c["execError"]}
     need = {"positional", "textpos", "byname", "none"}
-    if not need <= strategies:
+    if not only and not need <= strategies:
         chk.machinery("vacuous: merge strategies %r never enumerated" % sorted(need - strategies))
     if not any(c["execError"] for c in uniq):
         chk.machinery("vacuous: no duplicate-column-expression case")
